@@ -171,6 +171,8 @@ pub fn run_brainhist(line: &str) -> String {
         return "bad-line".into();
     }
     let mut gen = BafflingRecursiveIsotopicPatternGenerator::new();
+    // the same history through the public constructor with a caller-kept cache: constants checked out, handed back
+    let mut cache = IsotopicConstantsCache::new();
     let mut outs = Vec::new();
     for call in f[1].split('|') {
         let a: Vec<&str> = call.split(';').collect();
@@ -187,7 +189,19 @@ pub fn run_brainhist(line: &str) -> String {
             .unwrap_or_else(|| "panic".into());
         let s = guarded(move || variants(None, c2, &req2, z, carrier).map(|l| show(&l)).unwrap_or_else(|| "bad-req".into()))
             .unwrap_or_else(|| "panic".into());
-        outs.push(format!("{g}~{s}"));
+        let c3 = build_comp(a[0], a[4]);
+        let req3 = a[1].to_string();
+        let k = guarded(|| match (c3, spec_of(&req3)) {
+            (Some(c3), Some(spec)) => {
+                let dist = IsotopicDistribution::from_composition_and_cache(c3, spec, &mut cache);
+                let peaks = dist.isotopic_variants(z, carrier);
+                cache.receive_from(dist.constants);
+                show(&peaks)
+            }
+            _ => "bad-req".to_string(),
+        })
+        .unwrap_or_else(|| "panic".into());
+        outs.push(format!("{g}~{s}~{k}"));
     }
     outs.join("|")
 }
